@@ -80,7 +80,9 @@ def main(argv=None):
         mod.check(run, model, a.tier)
         # the shared helpers the property's anchored code reaches (anchor files from properties.jsonl)
         from .rules import shared
+        shared.set_property(pid)
         shared.check(run, model, anchor_files(pid))
+        shared.providers(run, model, pid, a.tier)
         if a.tier == "thorough":
             thorough_extras(run, model, pid)
     except AnchorMissing as e:
